@@ -201,7 +201,7 @@ def build(n):
     if k == "bar":
         return Bar(n["size"], n["begin"], n["end"], width=n["width"])
     if k == "pbar":
-        return ProgressBar(total=n["total"], completed=n["completed"], width=n["width"], pulse=n["pulse"], animation_time=1.5)
+        return ProgressBar(total=n["total"], completed=n["completed"], width=n["width"], pulse=n["pulse"], animation_time=n.get("atime", 1.5))
     if k == "group":
         return RenderGroup(*[build(c) for c in n["children"]], fit=n["fit"])
     if k == "cast":
